@@ -205,7 +205,12 @@ func (m *c07Sched) step(tok string) (out string) {
 			m.pending = m.ctl.Go("producer", func() { res = m.q.Offer(v) })
 			return "pending"
 		}
-		return c07ShowErr(m.q.Offer(v))
+		err := m.q.Offer(v)
+		if err == fpgo.ErrQueueIsFull {
+			_, pc := m.q.VerifState()
+			return "full pool=" + strconv.Itoa(pc)
+		}
+		return c07ShowErr(err)
 	case tok == "p":
 		if inpass {
 			return "skip"
